@@ -556,6 +556,24 @@ def translate_clip():
             raise Unsupported("%d masked assignments to x0 in solve()" % len(lines))
         return "\n".join(lines) + "\n  x0"
     emit("clampX0", "(xl xu x0 : F)", f_clamp)
+
+    # solve(): how the scaling tuple handed to remove_scaling is built (text), and apply_scaling
+    try:
+        fn = find_func(sol, "solve")
+        blk = [st for st in fn.body if isinstance(st, ast.If) and ast.unparse(st.test) == "scaling_within_bounds"
+               and any("scaling_changes" in ast.unparse(b) for b in st.body)]
+        if len(blk) != 1:
+            raise Unsupported("%d `if scaling_within_bounds:` blocks building scaling_changes" % len(blk))
+        i = fn.body.index(blk[0])
+        lines = [ast.unparse(b) for b in blk[0].body]
+        for st in fn.body[i + 1:i + 4]:
+            lines.append(ast.unparse(st))
+        ap = find_func(utl, "apply_scaling")
+        lines.append("apply_scaling: " + " ; ".join(ast.unparse(b).replace("\n", " ") for b in ap.body))
+        out.append(("scalingSetup", "/-- the statements of solve() that build `scaling_changes` and scale x0 / the bounds, and apply_scaling -/\ndef scalingSetup : List String := [%s]\n"
+                    % ", ".join('"%s"' % t.replace('"', "'") for t in lines)))
+    except Unsupported as exc:
+        out.append(("scalingSetup", "-- TRANSLATION FAILED for scalingSetup: %s\n" % exc))
     return out
 
 
@@ -1032,7 +1050,47 @@ def regenerate_guards(ctx=None):
     return [n for n, _ in defs]
 
 
+# ================================================================================================
+# trust_region.py: where the trust-region ball stands in the list handed to Dykstra (C13)
+# ================================================================================================
+def regenerate_trproj(ctx=None):
+    """for every function of trust_region.py that defines `trproj`: the definition of trproj and every statement that builds or
+    changes the list P, as canonical text (the ball must be the LAST projector of a sweep: the result of dykstra lies exactly in
+    the last set — C15_last_in — which is what bounds the step by Delta)"""
+    path = os.path.join(core.LEAN_DIR, "DfolsVerif", "Gen", "TrProj.lean")
+    rows = []
+    try:
+        tree = ast.parse(open(os.path.join(core.REPO, "dfols", "trust_region.py")).read())
+        for fn in [n for n in tree.body if isinstance(n, ast.FunctionDef)]:
+            stm = []
+            for n in ast.walk(fn):
+                if isinstance(n, ast.Assign) and len(n.targets) == 1 and ast.unparse(n.targets[0]) in ("trproj", "P"):
+                    stm.append((n.lineno, ast.unparse(n)))
+                elif isinstance(n, ast.AugAssign) and ast.unparse(n.target) == "P":
+                    stm.append((n.lineno, ast.unparse(n)))
+                elif isinstance(n, ast.Expr) and isinstance(n.value, ast.Call) and isinstance(n.value.func, ast.Attribute) \
+                        and ast.unparse(n.value.func.value) == "P":
+                    stm.append((n.lineno, ast.unparse(n)))
+            if any(t.startswith("trproj") for _, t in stm):
+                rows.append((fn.name, [t for _, t in sorted(stm)]))
+    except Exception as exc:
+        if ctx is not None:
+            ctx.broke("gen:trproj", repr(exc))
+    content = "\n".join(["/- GENERATED by harness/gen_kernels.py from /repo's dfols/trust_region.py on every run — do not edit. -/",
+                         "namespace Dfols.Gen", "",
+                         "/-- (function, statements defining `trproj` and building the projector list `P`, in source order) -/",
+                         "def trprojPlacement : List (String × List String) := [",
+                         ",\n".join('  ("%s", [%s])' % (f, ", ".join('"%s"' % t.replace('"', "'") for t in ts)) for f, ts in rows),
+                         "]", "", "end Dfols.Gen", ""])
+    old = open(path).read() if os.path.exists(path) else None
+    if old != content:
+        open(path, "w").write(content)
+    return [f for f, _ in rows]
+
+
 if __name__ == "__main__":
+    print(regenerate_trproj())
+    print(open(os.path.join(core.LEAN_DIR, "DfolsVerif", "Gen", "TrProj.lean")).read())
     regenerate_guards()
     print(open(os.path.join(core.LEAN_DIR, "DfolsVerif", "Gen", "RestartGuards.lean")).read())
     regenerate_loops()
